@@ -27,6 +27,7 @@ pub fn prop() -> HistProp {
         nontrivial,
         quick_cases: 8000,
         thorough_cases: 120000,
+        pressure_cases: (0, 0),
         assumptions: vec!["directories that had entries written into them are exempt from the timestamp comparison"],
     }
 }
